@@ -112,9 +112,10 @@ def norm(s):
 
 
 def regex_defs(text):
-    """every `static ref NAME: Regex = Regex::new(...)` -> (NAME, fmt literal as written, [args])"""
+    """every `static ref NAME: Regex = Regex::new(ARG)` / `RegexBuilder::new(ARG).backtrack_limit(L).build()`
+    -> (NAME, fmt literal as written, [args], L or None)"""
     out = []
-    for m in re.finditer(r"static\s+ref\s+([A-Z_]+)\s*:\s*Regex\s*=\s*Regex::new\(", text):
+    for m in re.finditer(r"static\s+ref\s+([A-Z_]+)\s*:\s*Regex\s*=\s*(Regex|RegexBuilder)::new\(", text):
         name = m.group(1)
         i = m.end()
         depth = 1
@@ -135,14 +136,22 @@ def regex_defs(text):
                 depth -= 1
             j += 1
         arg = text[i:j - 1].strip()
+        limit = None
+        if m.group(2) == "RegexBuilder":
+            mt = re.match(r"\s*\.backtrack_limit\(\s*([A-Za-z0-9_:]+)\s*\)\s*\.build\(\)\s*\.unwrap\(\)\s*;", text[j:])
+            if not mt:
+                raise F.FactError("RegexBuilder chain of %s not recognised" % name)
+            limit = mt.group(1)
+        elif not re.match(r"\s*\.unwrap\(\)\s*;", text[j:]):
+            raise F.FactError("Regex::new(..) of %s is not followed by .unwrap();" % name)
         mm = re.fullmatch(r'&format!\(\s*"((?:[^"\\]|\\.)*)"\s*,?(.*)\)', arg, flags=re.S)
         if mm:
             args = [a.strip() for a in mm.group(2).split(",") if a.strip()]
-            out.append((name, mm.group(1), args))
+            out.append((name, mm.group(1), args, limit))
             continue
         mm = re.fullmatch(r'"((?:[^"\\]|\\.)*)"', arg, flags=re.S)
         if mm:
-            out.append((name, mm.group(1), []))
+            out.append((name, mm.group(1), [], limit))
             continue
         raise F.FactError("Regex::new argument of %s not recognised" % name)
     return out
@@ -183,10 +192,15 @@ def gen():
     if names != want:
         raise F.FactError("regex inventory of sentence_detector.rs changed: %s" % names)
     rows = []
-    for name, fmt, args in regs:
+    for name, fmt, args, _limit in regs:
         rows.append("(%s, %s, [%s])" % (coq_string(name), coq_string(fmt), "; ".join(coq_string(a) for a in args)))
     out.append("(* every Regex::new of the detector: (name, format string as written in the source, format arguments) *)\n"
                "Definition regex_shapes : list (string * string * list string) :=\n  [ %s ].\n" % ";\n    ".join(rows))
+    # patterns with look-around run on fancy-regex's backtracking VM, whose default limit of 1,000,000 steps makes long
+    # windows fail (get_eos -> Err -> the iterator panics); the others are delegated to the regex crate (no limit)
+    fancy = ["(%s, %s)" % (coq_string(name), coq_string(limit or "default"))
+             for name, fmt, args, limit in regs if re.search(r"\(\?[<=!]", fmt)]
+    out.append("(* patterns with look-around and their backtrack limit *)\nDefinition fancy_backtrack_limits : list (string * string) := [ %s ].\n" % "; ".join(fancy))
     # QUOTE_MARKER: literal alternatives of both groups
     qfmt = rust_str([r for r in regs if r[0] == "QUOTE_MARKER"][0][1], "QUOTE_MARKER")
     m = re.fullmatch(r"\(((?:[^()|\[\]]+\|)*)\[\{\}\]\)\(([^()\[\]]+)\)", qfmt)
